@@ -25,6 +25,21 @@ CHECKS = {
    text="Seeded search over (project, call history, environment) triples; every call of every history is compared with the reference model. Finds state carried between accessor calls (lazy compilation, generators advanced per call, errors swallowed by sync.Once, shared schema objects mutated). Exploration, not proof: a clean batch is evidence.",
    note="Trusted: the instrumenter (checked by ./check selftest: the repository's suite passes on the instrumented copy), simrt, the reference model's assumption that a fresh build under the canonical environment is the specification. Single task; concurrent histories are C18.",
    ref="4.5"),
+ "C01": dict(
+   technique="deterministic simulation with fault injection: builds on a simulated disk (real directory tree, content and timing decided by a seeded fault plan executed inside the mediated os calls) in crash-attributed worker processes; oracle: catalog or structured error, no panic, no process death, bounded file accesses, no hang; plus a single-fault-at-every-point sweep",
+   text="Seeded search over (project, fault plan) pairs: generated, light include graphs (hostile parameters, cycles), 29 special configurations, corpus; 0-3 faults out of 15 kinds (missing, directory, symlink loop, torn, flipped/zeroed/stale/duplicated/misdirected sectors, swap after stat, change between two INCLUDEs, cycle created mid-build, EACCES/EIO). Each build runs in a worker whose death (stack overflow, fatal error) is attributed to the run and confirmed in a fresh process. Claimed for the fault/configuration slice of C01, not for all byte strings.",
+   note="Trusted: instrumenter (selftest), sim-disk hook, worker/driver attribution. EACCES/EIO are stubbed syscall results. Exponential macro expansion is not generated. Hang = exceeds the 30 s per-run watchdog twice.",
+   ref="4.1"),
+ "C07": dict(
+   technique="deterministic simulation with fault injection: every build on the simulated disk that ends in an error is checked against what the disk actually served (file, version, index, recomputed line/column/quote) and against the dynamic include tree reconstructed from the access log by an independent reference model (existential over file instances; unique when a fault served two versions of one path)",
+   text="Seeded search over (project, fault plan) pairs whose builds fail. The history a fixture cannot pin - the same path served in different versions to two INCLUDEs, a file swapped between stat and read, a byte damaged on disk at a known keyword - is exactly what the simulator controls, so the truthful location and trace are known independently of the implementation.",
+   note="Trusted: instrumenter, sim-disk access log, the reference model in model.go (line-anchored INCLUDE recognition; asserted only where that is sound: light projects and generated projects without byte-copying faults). One known finding (stale INCLUDE line cached per including file name) is classified by mechanism; any other wrong trace is reported.",
+   ref="4.3"),
+ "C14": dict(
+   technique="deterministic simulation with fault injection: complete mediation of every file-system call (os, io/ioutil, path/filepath) by the instrumenter; the recorded access log is checked for refinement against a reference model of INCLUDE resolution written from the property text, plus a model-independent safety clause per access (inside the project directory, no '..', no decoy, only stat/read)",
+   text="Seeded search over include-heavy projects with hostile parameters (path alphabet of ~45 entries: '..', '.', absolute, backslash, quoted, dot-files, empty, long, non-ASCII), decoys outside the project, repeats/diamonds/static cycles, and faults that change the graph mid-build (target vanishes or becomes a directory between stat and read, file replaced between two INCLUDEs, cycle created after the first read). Because the instrumenter mediates by type, a file-system call that a change ADDS is seen too.",
+   note="Trusted: instrumenter completeness for os / io/ioutil / path/filepath entry points (others - syscall, os.File methods on a descriptor obtained elsewhere - are not mediated), reference model. The model abstains where the property is silent (second parameter, annotation, empty name).",
+   ref="4.2"),
  "C06": dict(
    technique="deterministic simulation: the same project observed under R seeded environments (permuted map iteration order per instrumented site, prior builds in the process, a fresh OS process, pool policy, ambient values); all observations must be byte-identical; culprit map site named by differential re-execution",
    text="Seeded search over projects (valid, multi-defect, corpus, byte-corrupted before the build) x environments. The map-order seam turns Go's per-iteration randomisation into a seeded, replayable choice, so an order dependence is found in one run and attributed to its site instead of showing up one time in n.",
